@@ -84,6 +84,16 @@ def rule_c(ctx):
     m = ctx.model
     f = m.func(MOD, "Geometry.integrate")
     ctx.instance(R)
+    sem = _fold_integrate(f)
+    if sem is not None:
+        # decided on the folded method (scalar voxel volume, data with a time and a component axis, 1-3 space dimensions)
+        ok_, why_ = sem
+        for what in ("both input kinds multiply the cached voxel volume with the data", "reduction is space_dim sums over axis 0 of the weighted product",
+                     "the reduced weighted product is returned", "scaling is prod(num_voxels / spatial data shape)"):
+            ctx.ob(R, f.qname, what + " (folded for array and Image input, 1-3 dimensions)", ok_, why_, f.node, evidence=True)
+        ctx.floor(R, 1)
+        _rule_c_normalize(ctx, R, m)
+        return
     prods = [n for n in ast.walk(f.node) if isinstance(n, ast.Assign) and isinstance(n.value, ast.Call) and norm(n.value.func) in ("np.multiply",) and len(n.value.args) == 2]
     prods += [n for n in ast.walk(f.node) if isinstance(n, ast.Assign) and isinstance(n.value, ast.BinOp) and isinstance(n.value.op, ast.Mult) and isinstance(n.targets[0], ast.Name)]
     data = f.params[1]
@@ -154,6 +164,47 @@ def rule_c(ctx):
             break
     ctx.ob(R, f.qname, "scaling is prod(num_voxels / spatial data shape)", hit is not None, "", f.node)
     ctx.floor(R, 1)
+    _rule_c_normalize(ctx, R, m)
+
+
+def _fold_integrate(f):
+    """Fold Geometry.integrate for a geometry with scalar voxel volume VV and data of shape (S_0..S_{d-1}, TIME, COMP), given as array and
+    as Image: (True, "") when the result is d sums over axis 0 of DATA * VV * prod(N_k / S_k); (False, why) when the result depends on
+    the payload extents or the total size (named contradiction); None otherwise (not decided here)."""
+    from ..fold import Folder, Obj, Opaque, Raised, Refuse
+    from ..terms import nf
+
+    for dim in (1, 2, 3):
+        shape = tuple([Opaque("int", f"S{k}") for k in range(dim)] + [Opaque("int", "TIME"), Opaque("int", "COMP")])
+        for kind in ("array", "image"):
+            arr = Opaque("ndarray", "DATA", {"shape": shape, "size": Opaque("int", "SIZE"), "ndim": dim + 2})
+            data = arr if kind == "array" else Obj("img", {"__class__": "Image", "img": arr, "shape": shape})
+            so = Obj("self", {"__class__": "Geometry", "space_dim": dim, "num_voxels": [Opaque("int", f"N{k}") for k in range(dim)],
+                              "voxel_volume": Opaque("float", "VV"), "cached_voxel_volume": Opaque("float", "CVV")})
+            fo = Folder(symbolic=True)
+            fo.func_stack.append(f.node)
+            fo.fold_all_methods = True
+            try:
+                r = fo.call(f.node, [so, data])
+            except (Refuse, Raised):
+                return None
+            t = nf(r)
+            inner = "(DATA * VV * np.prod([" + ", ".join(f"(N{k} / S{k})" for k in range(dim)) + "]))"
+            want = inner
+            for _ in range(dim):
+                want = f"np.sum({want}, axis=0)"
+            if t == want:
+                continue
+            for tok, what in (("SIZE", "the total number of entries of the data"), ("TIME", "the number of time steps"), ("COMP", "the number of components")):
+                if tok in t:
+                    return (False, f"{kind} input, {dim}d: the integral is {t[:140]}, which depends on {what}: every time step / component is scaled by the payload extents")
+            if "CVV" in t:
+                return (False, f"{kind} input, {dim}d: the integral uses the cached voxel volume of an earlier call: {t[:140]}")
+            return None
+    return (True, "")
+
+
+def _rule_c_normalize(ctx, R, m):
     nm = m.func(MOD, "Geometry.normalize")
     am = AM(nm)
     a, b = nm.params[1], nm.params[2]
@@ -250,9 +301,44 @@ def rule_e(ctx):
     ctx.floor(R, 1)
 
 
+def rule_f(ctx):
+    R = "C03.f"
+    ctx.rule(R, "the voxel volume is a matter of the spatial axes only: Geometry.__init__ is folded for space_dim = 1, 2, 3 with a "
+             "num_voxels argument that carries two more entries than space_dim (the shape of series / vector data, which the constructor "
+             "documents to truncate), with dimensions given and with voxel_size given; the stored num_voxels, voxel_size, dimensions and "
+             "voxel_volume terms must not mention the surplus entries, and voxel_size / dimensions have space_dim entries")
+    from ..fold import Folder, Obj, Opaque, Raised, Refuse
+    from ..terms import nf
+
+    m = ctx.model
+    f = m.func(MOD, "Geometry.__init__")
+    ctx.instance(R)
+    for dim in (1, 2, 3):
+        for given in ("dimensions", "voxel_size"):
+            nv = [Opaque("int", f"N{k}") for k in range(dim)] + [Opaque("int", "TIME"), Opaque("int", "COMP")]
+            vals = [Opaque("f", f"L{k}") for k in range(dim)]
+            so = Obj("self", {"__class__": "Geometry"})
+            fo = Folder(symbolic=True)
+            fo.func_stack.append(f.node)
+            kw = {"space_dim": dim, "num_voxels": nv, given: vals}
+            try:
+                fo.call(f.node, [so], kw)
+            except (Refuse, Raised) as e:
+                raise AnalysisError(f"{f.qname}: outside the folding language for space_dim {dim}, {given} given ({e})")
+            bad = []
+            for a in ("num_voxels", "voxel_size", "dimensions", "voxel_volume"):
+                t = nf(so.fields.get(a))
+                if "TIME" in t or "COMP" in t:
+                    bad.append(f"self.{a} = {t[:90]}")
+            ctx.ob(R, f.qname, f"space_dim {dim}, {given} given: no stored quantity depends on num_voxels entries beyond the spatial ones", not bad,
+                   "; ".join(bad) + " -- constructed with the shape of series / vector data, every integral is off by the product of the extra extents", f.node, evidence=True)
+    ctx.floor(R, 1)
+
+
 def run(ctx):
     rule_a(ctx)
     rule_b(ctx)
     rule_c(ctx)
     rule_d(ctx)
     rule_e(ctx)
+    rule_f(ctx)
